@@ -370,6 +370,16 @@ def run_property(ctx, props_file, tags, what, tie=True, extra_rule=''):
                 found.setdefault(base, []).append((k, n, j, s, a, tg))
     ctx.cov['distinct_nontrivial'] = len(nontriv)
     ctx.cov['trace_events_judged'] = events
+    # work after the stop (C09: "the search ends after a bounded amount of further work"): nodes counted between the poll that first reported the stop
+    # and the end of the search, over the stop-injection family (a poll at every node, the stop injected at every poll index)
+    after = []
+    for (k, n, ss), e in zip(sc, eng):
+        if k != 'stops': continue
+        m1 = re.search(r'POLL \d+ n=(\d+) stop=1', e); m2 = re.search(r'END [^|]*?nodes=(\d+)', e)
+        if m1 and m2: after.append(int(m2.group(1)) - int(m1.group(1)))
+    if after:
+        after.sort()
+        ctx.cov['nodes_entered_after_the_stop_was_seen'] = {'searches': len(after), 'max': after[-1], 'median': after[len(after) // 2], 'proved_bound_on_main_search_nodes': 8192}
     ctx.cov['searches_not_judged'] = len(unjudged)
     if unjudged:
         ctx.broken.append(vlib.Broken('check machinery error: the judge could not read some engine answers', json.dumps(unjudged[:5])))
